@@ -193,11 +193,16 @@ inductive Ev
   | op (o : Op)        -- EntityLocal helper: DataCopy, helper on the copy, SetData
   | scratch (o : Op)   -- the application runs a helper of package model on a DataCopy of its own and drops it
   | copy               -- a value is handed out (DataCopy, reply payload, event payload)
+  | own (k : Nat) (o : Op)  -- the application runs a helper of package model on the value it was handed (k-th newest)
 
 def step (c : Cfg) (s : St) : Ev → St
   | .op o => { s with h := s.h.run (prog c s.h s.store o).1, store := (prog c s.h s.store o).2 }
   | .scratch o => { s with h := s.h.run (prog c s.h s.store o).1 }
   | .copy => { s with handles := s.store :: s.handles }
+  | .own k o =>
+    match s.handles[k]? with
+    | none => s
+    | some v => { s with h := s.h.run (prog c s.h v o).1, handles := s.handles.set k (prog c s.h v o).2 }
 
 def runEvs (c : Cfg) (s : St) (evs : List Ev) : St := evs.foldl (step c) s
 
